@@ -220,10 +220,41 @@ def register(app, rule, name, handler, style, **kw):
         shortcut.func(rule, *shortcut.args, callback=handler, **shortcut.keywords, **kw)
 
 
+# how the application object comes about: the configurations an application may run under (enumerated)
+def _via_setup(cfg):
+    app = ombott.Ombott()
+    app.setup(cfg)
+    return app
+
+
+APP_CONFIGS = {
+    "default": lambda: ombott.Ombott(),
+    "debug": lambda: ombott.Ombott({"debug": True}),
+    "nocatchall": lambda: ombott.Ombott({"catchall": False}),
+    "setup-debug": lambda: _via_setup({"debug": True}),
+    "setup-none": lambda: _via_setup(None),
+    "limits": lambda: ombott.Ombott({"max_body_size": 0, "max_memfile_size": 1, "app_name_header": "X-App"}),
+}
+APP_FACTORY = [APP_CONFIGS["default"]]
+
+
+def under_config(name, fn):
+    """the query `fn` with every application built under configuration `name`"""
+    def q(*a, **kw):
+        APP_FACTORY[0] = APP_CONFIGS[name]
+        try:
+            return fn(*a, **kw)
+        finally:
+            APP_FACTORY[0] = APP_CONFIGS["default"]
+    q.__signature__ = __import__("inspect").signature(fn)
+    q.__annotations__ = dict(fn.__annotations__)
+    return q
+
+
 def build(shape, bitmaps, style, calls):
     """bitmaps[r][i] tells whether UNIVERSE[i] is registered on route r. Returns (app, tables, live); a rule no
     method was registered for does not exist (live[r] is False)."""
-    app = ombott.Ombott()
+    app = APP_FACTORY[0]()
     tables = []
     for r, spec in enumerate(shape["rules"]):
         rule = render(spec, shape["flavour"])
@@ -510,6 +541,23 @@ def table_queries(tier):
     return out
 
 
+def config_queries(tier):
+    T = tier == "thorough"
+    sh = shapes(tier)[0]
+    out = []
+    for name in APP_CONFIGS:
+        if name == "default":
+            continue
+        for gi, verbs in enumerate([SPELLINGS[0:4], SPELLINGS[4:8], SPELLINGS[8:12]][:3 if T else 1]):
+            paths = sh["paths"][:5] if T else sh["paths"][:len(sh["rules"]) + 1]
+            out.append(Q("config/%s/%s/v%d" % (name, sh["tag"], gi), under_config(name, make_table(sh, paths, verbs, "upper", "wsgi")),
+                         "as table/%s/v%d with the application built under configuration %r; verb in %s, path in %s"
+                         % (sh["tag"], gi, name, list(verbs), paths),
+                         timeout=150 if not T else 500, expect_cover=["200", "405"], family="config",
+                         config={"shape": sh["tag"], "app": name, "verbs": list(verbs), "paths": paths}))
+    return out
+
+
 def edit_queries(tier):
     sh = shapes(tier)[0]
     verbs = ("GET", "head", "put", "FOO")
@@ -597,7 +645,8 @@ def override_queries(tier):
 
 def queries(tier):
     """Families interleaved, so that a run cut by the wall budget still holds queries of each family."""
-    families = [table_queries(tier), edit_queries(tier), split_queries(tier), verb_queries(tier), override_queries(tier)]
+    families = [table_queries(tier), edit_queries(tier), split_queries(tier), verb_queries(tier), override_queries(tier),
+                config_queries(tier)]
     out = []
     while any(families):
         for fam in families:
